@@ -108,7 +108,8 @@ def _run_case(case: dict) -> dict:
     pv_before = dict(model.get_parameter_values())
     n = len(ref.variables)
     sc = g.get("state_scale", 1.0)
-    states = [[round(rng.uniform(0.2, 3.0), 3) * sc for _ in range(n)] for _ in range(4)]
+    states = [[round(rng.uniform(0.2, 3.0), 3) * sc for _ in range(n)] for _ in range(2)]
+    states += [[rng.choice([0.5, 1.0, 1.5, 2.0]) * (sc if sc != 1.0 and rng.random() < 0.5 else 1.0) for _ in range(n)] for _ in range(2)]  # lattice states
     times = [0.0, round(rng.uniform(0.1, 3.0), 2), 1.0, 2.5]
     rs_jobs: list[tuple[str, list | None, str, list, list, list]] = []
     for lg, fp in plan:
